@@ -271,7 +271,7 @@ func startTCPNode(name string, cfg tcpNodeCfg) *node {
 }
 
 func eventually(cond func() bool) bool {
-	for i := 0; i < 4000; i++ {
+	for i := 0; i < 60000; i++ { // up to 30 s: only a failing condition waits that long
 		if cond() {
 			return true
 		}
